@@ -60,13 +60,13 @@ def classify(messages, root):
     out = {'file not found': set(), 'wrong file size': set(), 'unknown file': set(), 'empty directory': set(), 'count': 0, 'size': 0, 'other': []}
     for m in messages:
         if m.startswith('file not found: '):
-            out['file not found'].add(os.path.relpath(m[len('file not found: '):], root))
+            out['file not found'].add(os.path.relpath(os.path.normpath(m[len('file not found: '):]), root))
         elif m.startswith('wrong file size: '):
-            out['wrong file size'].add(os.path.relpath(m[len('wrong file size: '):].split(',')[0], root))
+            out['wrong file size'].add(os.path.relpath(os.path.normpath(m[len('wrong file size: '):].split(',')[0]), root))
         elif m.startswith('unknown file: '):
-            out['unknown file'].add(os.path.relpath(m[len('unknown file: '):], root))
+            out['unknown file'].add(os.path.relpath(os.path.normpath(m[len('unknown file: '):]), root))
         elif m.startswith('empty directory: '):
-            out['empty directory'].add(os.path.relpath(m[len('empty directory: '):], root))
+            out['empty directory'].add(os.path.relpath(os.path.normpath(m[len('empty directory: '):]), root))
         elif m.startswith('Settings.count'):
             out['count'] += 1
         elif m.startswith('Settings.size'):
@@ -108,6 +108,7 @@ class Damage(SubCheck):
             {
                 'layout': st.sampled_from(['cache', 'cache', 'fanout']),
                 'dirname': st.sampled_from(['c', 'x.val.d', 'my-cache.db.d']),
+                'spelling': st.sampled_from(['plain', 'plain', 'dotdot', 'double-slash', 'dot']),  # how the directory path is written
                 'n_items': st.integers(3, len(ITEMS)),
                 'damages': st.lists(damage_strategy(), min_size=1, max_size=5),
             }
@@ -131,7 +132,7 @@ class Damage(SubCheck):
                     for combo in itertools.product(*[rep[k] for k in kinds]):
                         for layout in ('cache', 'fanout'):
                             for dirname in ('c', 'my-cache.db.d'):
-                                yield {'layout': layout, 'dirname': dirname, 'n_items': len(ITEMS), 'damages': list(combo)}
+                                yield {'layout': layout, 'dirname': dirname, 'spelling': 'plain' if dirname == 'c' else 'dotdot', 'n_items': len(ITEMS), 'damages': list(combo)}
 
         return gen()
 
@@ -141,13 +142,22 @@ class Damage(SubCheck):
         base = env.scratch.fresh('c17')
         os.makedirs(base)
         top = os.path.join(base, case['dirname'])
+        spelling = case.get('spelling', 'plain')
+        opened = top  # the same directory, written in a valid but not normalised way
+        if spelling == 'dotdot':
+            os.makedirs(os.path.join(base, 'app'))
+            opened = os.path.join(base, 'app', '..', case['dirname'])
+        elif spelling == 'double-slash':
+            opened = base + '//' + case['dirname']
+        elif spelling == 'dot':
+            opened = os.path.join(base, '.', case['dirname'])
         layout = case['layout']
         items = ITEMS[: case['n_items']]
         if layout == 'cache':
-            obj = diskcache.Cache(top, disk_min_file_size=64)
+            obj = diskcache.Cache(opened, disk_min_file_size=64)
             roots = [top]
         else:
-            obj = diskcache.FanoutCache(top, shards=2, disk_min_file_size=64)
+            obj = diskcache.FanoutCache(opened, shards=2, disk_min_file_size=64)
             roots = [os.path.join(top, '%03d' % i) for i in range(2)]
         try:
             for k, v in items:
@@ -241,7 +251,7 @@ class Damage(SubCheck):
                     else:
                         size_damaged[root] += dmg[1]
                     kinds.add(kind)
-            desc = 'layout=%s dir=%s items=%d damages=%s' % (layout, case['dirname'], len(items), short(case['damages'], 400))
+            desc = 'layout=%s dir=%s path-spelling=%s items=%d damages=%s' % (layout, case['dirname'], spelling, len(items), short(case['damages'], 400))
 
             # ---- plain check(): reports exactly the damage, changes nothing --------------------------
             before = [Snapshot(r).key() for r in roots]
@@ -288,7 +298,7 @@ class Damage(SubCheck):
             n_expected = len([k for k, _ in items if k not in deleted])
             if len(obj) != n_expected:
                 raise Violation('C17/repair-incomplete/len', 'after the repair len = %d, expected %d\n%s' % (len(obj), n_expected, desc))
-            return {'nontrivial': len(kinds) >= 2 or two_level, 'classes': ['layout=' + layout, 'dir=' + case['dirname']] + sorted('damage=' + k for k in kinds)}
+            return {'nontrivial': len(kinds) >= 2 or two_level, 'classes': ['layout=' + layout, 'dir=' + case['dirname'], 'spelling=' + spelling] + sorted('damage=' + k for k in kinds)}
         finally:
             try:
                 obj.close()
@@ -298,13 +308,23 @@ class Damage(SubCheck):
 
     def compare_reports(self, case, roots, msgs, deleted, resized, strays, count_damaged, size_damaged, fix, desc, allowed_dirs=None):
         how = 'check(fix=True)' if fix else 'check()'
+        def path_of(m):
+            if m.startswith('Settings.'):
+                return None
+            rest = m.split(': ', 1)[1] if ': ' in m else m
+            return os.path.normpath(rest.split(',')[0])
+
         for root in roots:
-            mine = [m for m in msgs if (root + os.sep) in m or m.endswith(root) or (len(roots) == 1)]
-            if len(roots) > 1:
-                # counter messages carry no path: attribute them to the damaged shard
-                mine = [m for m in msgs if (root + os.sep) in m or m.endswith(root)]
-                if root == roots[0]:
-                    mine += [m for m in msgs if m.startswith('Settings.')]
+            mine = []
+            for m in msgs:
+                pth = path_of(m)
+                if pth is None:
+                    if root == roots[0]:
+                        mine.append(m)  # counter messages carry no path: the damaged shard is the first one
+                elif pth == root or pth.startswith(root + os.sep):
+                    mine.append(m)
+                elif len(roots) == 1:
+                    mine.append(m)
             got = classify(mine, root)
             want_missing = {os.path.normpath(fn) for k, (r, fn) in deleted.items() if r == root}
             want_size = {os.path.normpath(fn) for k, (r, fn, _) in resized.items() if r == root}
